@@ -204,8 +204,10 @@ def run(ctx, clauses=C03_CLAUSES, pid="C03", extra_scenarios=None, post=None):
     logging.getLogger("ibllib").setLevel(logging.CRITICAL)
     ctx.level = "model_checking"
     for cfg in (["mc/NP2Split_quick.cfg", "mc/NP2Split_real.cfg"] if ctx.quick else ["mc/NP2Split_thorough.cfg", "mc/NP2Split_real.cfg"]):
-        r = tlc.run("mc/MC_NP2Split.tla", cfg, workers=4, timeout=1800)
+        r = tlc.run("mc/MC_NP2Split.tla", cfg, workers=4, timeout=1800, coverage=True)
         ctx.tlc(r, cfg)
+        if r.ok:
+            tlc.require_all_actions_taken(r)
         if not r.ok:
             raise tlc.TLCError(f"NP2Split model violates {r.invariant_violated} ({cfg}):\n{r.out[-2000:]}")
     if pid == "C03":
